@@ -37,9 +37,10 @@ def rinline_comment_value(r, hostile=True):
 
 def rdate(r):
     k = r.random()
-    if k < 0.1:
-        return r.choice([datetime.date.min, datetime.date.max, datetime.date(999, 12, 31), datetime.date(1000, 1, 1), datetime.date(1, 2, 3)])
-    return datetime.date.fromordinal(r.randint(datetime.date(1, 1, 1).toordinal(), datetime.date.max.toordinal())) if k < 0.3 \
+    if k < 0.2:
+        # (years below 1000 need zero padding, year 9999 is the last one)
+        return r.choice([datetime.date.min, datetime.date.max, datetime.date(999, 12, 31), datetime.date(1000, 1, 1), datetime.date(1, 2, 3), datetime.date(33, 4, 3)])
+    return datetime.date.fromordinal(r.randint(datetime.date(1, 1, 1).toordinal(), datetime.date.max.toordinal())) if k < 0.4 \
         else datetime.date(r.randint(1900, 2100), r.randint(1, 12), r.randint(1, 28))
 
 
